@@ -73,13 +73,13 @@ def call_specs(draw, jsonclass):
     else:
         name = draw(unicode_name)
     if draw(st.booleans()):
-        params = draw(st.lists(st.one_of(values, st.sampled_from([None, 0, 0.0, -0.0, False, "", [], {}])), max_size=4))
+        params = draw(st.lists(gen.pick(values, st.sampled_from([None, 0, 0.0, -0.0, False, "", [], {}])), max_size=4))
     else:
-        keys = st.one_of(ident, st.sampled_from(["a", "b", "é", "k k", "0", ""]), st.text(gen.TEXT_ALPHABET, max_size=4),
+        keys = gen.pick(ident, st.sampled_from(["a", "b", "é", "k k", "0", ""]), st.text(gen.TEXT_ALPHABET, max_size=4),
                          st.sampled_from(["func", "method", "params", "args", "kwargs", "config", "cls", "name", "request", "target", "result"]))
         keys = keys.filter(lambda k: k != "self" and (not jsonclass or k != "__jsonclass__"))
         params = draw(st.dictionaries(keys, values, max_size=4))
-    result = draw(st.one_of(values, values, st.sampled_from([None, 0, 0.0, -0.0, False, "", [], {}, 2 ** 53, -(2 ** 53), 5e-324, 1e308]),
+    result = draw(gen.pick(values, values, st.sampled_from([None, 0, 0.0, -0.0, False, "", [], {}, 2 ** 53, -(2 ** 53), 5e-324, 1e308]),
                             st.sampled_from(reqgen.LOOKALIKES)))
     if draw(st.integers(0, 9)) == 0:
         # arguments shaped like the protocol's own messages
@@ -103,7 +103,7 @@ def cases(draw, sockets=False):
     jsonclass = draw(st.booleans())
     style = draw(st.sampled_from(["plain", "plain", "chain", "notify", "batch", "batch", "batch-chain"]))
     # mostly short batches, some beyond ten entries (two-digit positions)
-    n = draw(st.one_of(st.integers(1, 4), st.integers(1, 4), st.integers(1, 4), st.integers(9, 13))) if style.startswith("batch") else 1
+    n = draw(gen.pick(st.integers(1, 4), st.integers(1, 4), st.integers(1, 4), st.integers(9, 13))) if style.startswith("batch") else 1
     calls = []
     for _ in range(n):
         c = draw(call_specs(jsonclass))
@@ -306,7 +306,7 @@ def oracle_loopback(case):
 
 @st.composite
 def reregistration_cases(draw):
-    name = draw(st.one_of(ident, st.lists(ident, min_size=2, max_size=3).map(".".join)))
+    name = draw(gen.pick(ident, st.lists(ident, min_size=2, max_size=3).map(".".join)))
     steps = draw(st.lists(st.sampled_from(["call", "call", "swap-function", "swap-instance", "remove"]), min_size=2, max_size=7))
     return {"name": name, "steps": steps, "version": draw(st.sampled_from([1.0, 2.0])), "kind": draw(st.sampled_from(["function", "instance"]))}
 
